@@ -1,6 +1,9 @@
-"""C10 — proposer settings follow the documented precedence of the execution config (spec/ExecConfig.tla)."""
+"""C10 — proposer settings follow the documented precedence of the execution config (spec/ExecConfig.tla),
+also on the long-lived block relay service across configuration changes (spec/ExecConfigSvc.tla)."""
 import json
 import os
+import random
+from concurrent.futures import ThreadPoolExecutor
 import vf
 
 PID = "C10"
@@ -9,8 +12,26 @@ TEST = "TestVerifC10"
 FIELDS = ("fr", "gl", "gr", "mv", "pk")
 
 
+SVC_PKG = "./services/blockrelay/standard"
+SVC_TEST = "TestVerifC10Service"
+SVC_TRACE = ("Trace_ExecConfigSvc", "Trace_ExecConfigSvc.cfg")
+
+
 def driver(scenarios, tag):
     return vf.run_driver(PID, PKG, TEST, scenarios, tag)
+
+
+def svc_driver(scenarios, tag):
+    # a call or fetch job that does not return is recorded by the driver's watchdog as Hung (longer on the
+    # confirming re-runs: a wedge is a deadlock, it reproduces whatever the period)
+    wd = 5000
+    if tag.startswith("confirm"):
+        wd = 15000
+    return vf.run_driver(PID, SVC_PKG, SVC_TEST, scenarios, "svc-" + tag, env={"VERIF_WATCHDOG_MS": wd}, timeout=900)
+
+
+def is_svc(s):
+    return s.get("family", "").startswith("service")
 
 
 def _cfg(s):
@@ -19,7 +40,13 @@ def _cfg(s):
 
 
 def sig_of(s):
-    """Describes the failing input: enumerated lattice point (shape of the document) or random index."""
+    """Describes the failing input: enumerated lattice point (shape of the document) or random index; for the
+    service-level histories the family, the documents served and the validator that was held."""
+    if is_svc(s):
+        st = s["steps"]
+        return {"origin": s["family"], "init": st[0].get("init", 0),
+                "source": [[x.get("out"), x.get("doc", 0)] for x in st if x["ev"] == "Fetch"],
+                "held": next((x.get("v") for x in st if x["ev"] == "Hold"), "none")}
     c = _cfg(s)
     if c is None:
         return {"origin": "random", "idx": s["steps"][0].get("idx")}
@@ -34,6 +61,28 @@ def sig_of(s):
             "reset": bool(e1.get("reset")),
             "disabled_not_inherited": any(r.get("disabled") and (e1.get("reset") or r["addr"] not in base)
                                           for r in e1.get("relays", []))}
+
+
+def svc_nontrivial(s, rows):
+    # the antecedent at the service level: the configuration in force was replaced by a different document and a
+    # validator was looked up afterwards; for the overlap family moreover the source answered the fetch while the
+    # held call was still in flight
+    force, changed, after = s["steps"][0].get("init", 0), False, False
+    for r in rows:
+        if r.get("ev") == "Source" and r.get("out") == "good" and r.get("doc") != force:
+            force, changed = r["doc"], True
+        if changed and r.get("ev") == "CallStart":
+            after = True
+    if s["family"] == "service-heldfetch":
+        # a call was answered while the fetch job was waiting for the source
+        src = next((i for i, r in enumerate(rows) if r.get("ev") == "Source"), None)
+        ret1 = next((i for i, r in enumerate(rows) if r.get("ev") == "CallReturn"), None)
+        return src is not None and ret1 is not None and ret1 < src
+    if s["family"] == "service-held":
+        ret1 = next((i for i, r in enumerate(rows) if r.get("ev") == "CallReturn" and r.get("i") == 1), None)
+        src = next((i for i, r in enumerate(rows) if r.get("ev") == "Source"), None)
+        return after and ret1 is not None and src is not None and src < ret1
+    return after
 
 
 def nontrivial(s, rows):
@@ -77,6 +126,64 @@ def scenarios(tier):
     return out
 
 
+def svc_scenarios(tier, first_id):
+    """Histories of one service instance, enumerated by TLC from Scen_ExecConfigSvc (quick: a seeded sample)."""
+    quick = tier == "quick"
+    rnd = random.Random(vf.seed())
+    out = []
+    fams = (("hist", 40), ("held", 90), ("heldfetch", 40))
+    with ThreadPoolExecutor(max_workers=len(fams)) as ex:
+        gen = {fam: ex.submit(vf.tlc_scenarios, PID, "Scen_ExecConfigSvc", "Scen_ExecConfigSvc_%s.cfg" % fam,
+                              exhaustive=True, name="scen-svc-" + fam, timeout=900) for fam, _ in fams}
+        gen = {fam: f.result() for fam, f in gen.items()}
+    for fam, n in fams:
+        hs = gen[fam]
+        if quick:
+            if fam == "held":
+                # every pair of different good documents around the held call is kept, the rest is sampled
+                def key(h):
+                    f = [x for x in h if x["ev"] == "Fetch"]
+                    return h[0]["init"] != 0 and f[0]["out"] == "good" and f[0]["doc"] != h[0]["init"]
+                must = [h for h in hs if key(h)]
+                rnd.shuffle(must)
+                rest = [h for h in hs if not key(h)]
+                rnd.shuffle(rest)
+                hs = must[: n - 20] + rest[:20]
+            else:
+                rnd.shuffle(hs)
+                hs = hs[:n]
+        out += [{"sc": first_id + len(out) + i, "family": "service-" + fam, "steps": h} for i, h in enumerate(hs)]
+    for i, s in enumerate(out):
+        s["sc"] = first_id + i
+    return out
+
+
+SVC_CONTROL = [("_memo", "invariant", "UsesInForce"), ("_memo_seq", None, None), ("_memochecked", None, None)]
+
+
+def svc_design_checks(v, tier):
+    mc_pool = ThreadPoolExecutor(max_workers=1)
+    mc_fut = mc_pool.submit(vf.tlc_exhaustive, PID, "ExecConfigSvc", "MC_ExecConfigSvc_big.cfg" if tier == "thorough"
+                            else "MC_ExecConfigSvc.cfg", workers=6, timeout=1500)
+    # control model: settings remembered per validator, memo emptied by every fetch - right in every history without
+    # overlap (must pass), wrong when a call overlaps a fetch (must violate UsesInForce); remembering only while
+    # the document read is still in force is fine (must pass)
+    with ThreadPoolExecutor(max_workers=len(SVC_CONTROL)) as ex:
+        rs = list(ex.map(lambda c: vf.tlc(PID, "mc-svc" + c[0], "ExecConfigSvc", "MC_ExecConfigSvc%s.cfg" % c[0],
+                                          workers=2, timeout=900), SVC_CONTROL))
+    for (name, kind, inv), r in zip(SVC_CONTROL, rs):
+        if kind is None:
+            if not r["ok"]:
+                raise vf.Broken("control model ExecConfigSvc%s does not pass (%s %s)\n%s"
+                                % (name, r["kind"], r["violated"], r["out"][-2000:]))
+        elif not (r["kind"] == kind and r["violated"] == inv):
+            raise vf.Broken("the memoising control model no longer violates %s (%s %s)" % (inv, r["kind"], r["violated"]))
+    v.add_mc(mc_fut.result())
+    mc_pool.shutdown()
+    vf.log("model self-check: a per-validator memo emptied by every fetch violates UsesInForce under overlap and passes "
+           "sequentially; the checked memo passes (as they must)")
+
+
 def run(tier):
     v = vf.Verdict(PID, tier)
     v.assumptions = [
@@ -88,18 +195,40 @@ def run(tier):
         "disagree the specification allows both readings",
     ]
     # thorough: the small lattice is also run with -coverage 1 (vacuity control); the big one without (time)
+    # (the service-level model checking and scenario generation run beside the document-level part)
+    side = ThreadPoolExecutor(max_workers=2)
+    f_svc_design = side.submit(svc_design_checks, v, tier)
+    f_svc_gen = side.submit(svc_scenarios, tier, 1000001)
     v.add_mc(vf.tlc_exhaustive(PID, "ExecConfig", "MC_ExecConfig.cfg", coverage=(tier == "thorough")))
     if tier == "thorough":
         v.add_mc(vf.tlc_exhaustive(PID, "ExecConfig", "MC_ExecConfig_big.cfg", timeout=1500))
     sc = scenarios(tier)
     vf.conformance(v, sc, driver, "Trace_ExecConfig", "Trace_ExecConfig.cfg", sig_of, nontrivial,
                    chunk=8000, tlc_timeout=900, max_failures=3)
+    # service level: the same precedence, asked through ONE long-lived blockrelay/standard Service across
+    # configuration changes, with calls held mid-resolution across a fetch
+    f_svc_design.result()
+    svc = f_svc_gen.result()
+    side.shutdown()
+    # replay directories of this block are numbered from 101 (vf.conformance numbers from 1 per call)
+    orig = vf.save_replay
+    vf.save_replay = lambda pid, n, *a: orig(pid, n + 100, *a)
+    try:
+        vf.conformance(v, svc, svc_driver, SVC_TRACE[0], SVC_TRACE[1], sig_of, svc_nontrivial, tlc_timeout=900,
+                       max_failures=3)
+    finally:
+        vf.save_replay = orig
     v.coverage["rule"] = ("configuration documents of the ExecConfig.tla lattice enumerated by TLC (presence of the varied "
                           "field(s) at every level x relay inherited/new/overridden/disabled x reset_relays x matching "
                           "entries x entry kinds; legacy shapes) plus seeded random documents generated by the driver "
                           "(all fields at once, wide values); each rendered to JSON, parsed, looked up for every "
                           "validator before and after a marshal/unmarshal round trip by the real code; non-trivial = a "
-                          "proposer entry applies to a looked-up validator and relays are configured; distinct by document")
+                          "proposer entry applies to a looked-up validator and relays are configured; distinct by document. "
+                          "Service level: histories of one real blockrelay/standard Service enumerated by TLC from "
+                          "Scen_ExecConfigSvc (three documents / failures in a row with lookups of both validators after each; "
+                          "a lookup held inside the configuration's resolution across a complete fetch, then further "
+                          "lookups), every answer judged against ResolveSet of a document in force during the call; "
+                          "non-trivial = the document in force changed and a validator was looked up afterwards")
     return v.finish()
 
 
@@ -107,5 +236,8 @@ def replay(path):
     v = vf.Verdict(PID, "quick")
     with open(os.path.join(path, "scenario.json")) as fh:
         s = json.load(fh)
+    if is_svc(s):
+        vf.conformance(v, [s], svc_driver, SVC_TRACE[0], SVC_TRACE[1], sig_of, svc_nontrivial)
+        return 1 if v.violations else 0
     vf.conformance(v, [s], driver, "Trace_ExecConfig", "Trace_ExecConfig.cfg", sig_of, nontrivial)
     return 1 if v.violations else 0
